@@ -25,8 +25,12 @@ POLICIES = ["shuffle", "pct", "latency-small", "latency-heavy", "ties", "canonic
 def make(i, tier):
     seed = common.run_seed(i)
     rng = random.Random(seed)
-    cfg = E.swarm_config(rng, POLICIES, ttls=(600, 3600), max_nodes=1)
+    cfg = E.swarm_config(rng, POLICIES, ttls=(600, 3600), max_nodes=1, transports=("asyncio", "asyncio", "blocking"))
     scn, models, skipped = E.gen_multi(rng, FAMILIES, tier, 4, cfg)
+    # uninterpretable messages (events and task replies) arriving while other executions' events are held
+    scn["poison"] = [{"at": rng.choice([0.0, 0.3, 0.8, 1.2, 2.5]), "to": rng.choice(["shared", "instance", "reply"]),
+                      "body": rng.choice(["not json", "", "5", '{"context": 5}', "[]", '{"data": {}, "context": {}}'])}
+                     for _ in range(rng.choice([0, 0, 0, 1, 2]))]
     return seed, scn, models, skipped
 
 
@@ -43,7 +47,21 @@ def check(scn, seed, models=None, skipped=None):
         return {"evaluations": 1, "probes": {"empty": 1}, "findings": [], "distinct": []}
     mons = [NotifyMonitor("C02", check_shape=False, liveness=False), BrokerMonitor()]
     ttl = scn["config"].get("execution_ttl", 86400)
-    res = run_scenario(scn, seed, monitors=mons, horizon=ttl + 800)
+    def before(res):
+        if not scn.get("poison"):
+            return
+        from lsfsim.peers import NativeChannel, Props
+        pch = NativeChannel(res.sim, "poisoner")
+        sfx = "-qq" if scn["config"].get("queue_type") == "quorum" else ""
+        queues = {"shared": "asl_workflow_events" + sfx, "instance": "asl_workflow_events%s-inst0" % sfx,
+                  "reply": "asl_workflow_reply_to%s-inst0" % sfx}
+        for k, p in enumerate(scn["poison"]):
+            def pub(p=p, k=k):
+                res.sim.broker.basic_publish(pch.rec, "", queues[p["to"]], p["body"].encode(),
+                                             Props(content_type="application/json", message_id="poison-%d" % k,
+                                                   correlation_id="poison-cid-%d" % k if p["to"] == "reply" else None))
+            res.sim.call_at(res.sim.now + p["at"], pub, None, kind="client", label="poison")
+    res = run_scenario(scn, seed, monitors=mons, horizon=ttl + 800, before_run=before)
     # C11-tagged findings of these monitors belong to C11's check
     findings = [f for f in res.findings if f["property"] == PROP]
     for name, mo in (models or {}).items():
@@ -51,6 +69,7 @@ def check(scn, seed, models=None, skipped=None):
         if mo.flags.fanout_failures:
             probes["single-branch-failure"] = probes.get("single-branch-failure", 0) + 1
     probes["executions"] = len(scn["executions"])
+    probes["poison-messages"] = len(scn.get("poison") or [])
     probes["carrier-evaluations"] = mons[1].ops_checked
     probes["policy:" + scn["config"]["policy"] + "/" + str(scn["config"]["latency"])] = 1
     if res.sim.errors:
